@@ -185,6 +185,26 @@ def timeout_table(ob, tier):
                 problems.append("a stream still waiting for its response is not answered 504 on a backend timeout")
     if nb_groups != 2:
         problems.append("expected a frontend and a backend per-stream loop with answers, found %d" % nb_groups)
+    # Unlinked stream (its backend is gone, the response is being flushed): the session is kept
+    # open exactly while the response is not completely written (`!back.is_completed()`); an
+    # aborted response (Error phase: completed, never "terminated") must let the session close
+    sc = fn.debug.get("should_close")
+    if sc and dsyms and "Unlinked" in states:
+        unl = "(= %s %s)" % (dsyms[0], engine.bv(states.index("Unlinked"), 64))
+        comp = [e for e in ev if first_iter(e) and e.callee.endswith("::is_completed") and e.result is not None]
+        mine = [c for c in comp if q([c.guard, engine.NOT(unl)])[0] == "unsat"]
+        if not mine:
+            problems.append("an Unlinked stream's keep-the-session-open decision does not ask back.is_completed() (an aborted response, completed but never terminated, would keep the client connection open for ever)")
+        else:
+            hdr = mine[0].node[1][-1][0]
+            second = [e.guard for e in ev if e.kind == "call" and e.node[1] and e.node[1][-1] == (hdr, 1) and e.node[0] != hdr]
+            after = [e for e in ev if e.kind == "call" and not e.node[1] and e.seq > mine[0].seq and sc in e.env and e.env[sc].sort == "Bool"]
+            one_stream = [mine[0].guard] + [engine.NOT(g) for g in second[:1]]
+            tail = [e for e in after if q([e.guard] + one_stream)[0] == "sat"]
+            if not tail:
+                problems.append("shape: no event after the per-stream loop of the frontend timeout")
+            elif q([tail[0].guard] + one_stream + [engine.NOT("(= %s %s)" % (tail[0].env[sc].term, mine[0].result.term))])[0] != "unsat":
+                problems.append("after a single Unlinked stream, should_close is not `back.is_completed()`")
     res["witness"] = "answer sites reachable: %s; statuses %s; %d consumed reads" % (wit, sorted(x for x in seen_status if x), len(cons))
     res["witness_ok"] = bool(wit) and all(x == "sat" for x in wit) and len(cons) >= 1
     if problems:
